@@ -1866,7 +1866,7 @@ func (t *fnTr) assigned(list []ast.Stmt) []*lvar {
 				if len(x.Rhs) == 1 {
 					if c, ok := x.Rhs[0].(*ast.CallExpr); ok {
 						if se, ok := c.Fun.(*ast.SelectorExpr); ok && se.Sel.Name == "Encode" && len(c.Args) == 1 {
-							if el := t.lvarOf(se.X); el != nil && el.kind == "jencoder" {
+							if el := t.lvarOf(se.X); el != nil && (el.kind == "jencoder" || el.kind == "gencoder") {
 								add(el.sink)
 							}
 						}
@@ -3500,6 +3500,86 @@ func (t *fnTr) assign(x *ast.AssignStmt, next func() string) string {
 				}
 			}
 		}
+		// r := bytes.NewReader(b): the bytes it will deliver (only handed to gob.NewDecoder)
+		if define {
+			if c, ok := x.Rhs[0].(*ast.CallExpr); ok && len(c.Args) == 1 {
+				if pk, nm, isPkg := t.pkgCall(c); isPkg && pk == "bytes" && nm == "NewReader" && t.kindOfExpr(c.Args[0]) == "str" {
+					mark := len(t.guards)
+					src := t.expr(c.Args[0])
+					lv := &lvar{name: "l_" + l.Name, kind: "breader", fields: map[string]*lvar{}}
+					t.locals[obj] = lv
+					fs := t.newLocal(nil, l.Name+"_src", "str")
+					lv.fields["src"] = fs
+					lv.forder = []string{"src"}
+					return t.wrap(mark, "let "+fs.name+" : str := "+src+" in\n  "+next())
+				}
+				// dec := gob.NewDecoder(r) on such a reader: its single Decode(&m) is the environment function ext_gob_Decode
+				if pk, nm, isPkg := t.pkgCall(c); isPkg && pk == "encoding/gob" && nm == "NewDecoder" {
+					rl := t.lvarOf(c.Args[0])
+					if rl == nil || rl.kind != "breader" {
+						t.unsupported(x, "gob.NewDecoder on something other than a bytes.NewReader local")
+					}
+					lv := &lvar{name: "l_" + l.Name, kind: "gdecoder", fields: map[string]*lvar{"src": rl.fields["src"]}, forder: []string{"src"}}
+					t.locals[obj] = lv
+					return next()
+				}
+				// enc := gob.NewEncoder(&buf) on a writer local: Encode appends what the environment function ext_gob_Encode returns
+				if pk, nm, isPkg := t.pkgCall(c); isPkg && pk == "encoding/gob" && nm == "NewEncoder" {
+					var wl *lvar
+					if u, ok := unparen(c.Args[0]).(*ast.UnaryExpr); ok && u.Op == token.AND {
+						wl = t.lvarOf(u.X)
+					}
+					if wl == nil || wl.kind != "writer" {
+						t.unsupported(x, "gob.NewEncoder on something other than &buf with buf a writer local")
+					}
+					lv := &lvar{name: "l_" + l.Name, kind: "gencoder", fields: map[string]*lvar{}, sink: wl}
+					t.locals[obj] = lv
+					return next()
+				}
+			}
+		}
+		// err := enc.Encode(v) / err := dec.Decode(&m) on the gob locals
+		if c, ok := x.Rhs[0].(*ast.CallExpr); ok && len(c.Args) == 1 {
+			if se, ok := c.Fun.(*ast.SelectorExpr); ok {
+				if id, ok := se.X.(*ast.Ident); ok {
+					if el, ok := t.locals[t.p.info.Uses[id]]; ok && (el.kind == "gencoder" && se.Sel.Name == "Encode" || el.kind == "gdecoder" && se.Sel.Name == "Decode") {
+						var en string
+						if define {
+							en = t.newLocal(obj, l.Name, "errv").name
+						} else if erl, ok := t.locals[obj]; ok && erl.kind == "errv" {
+							en = erl.name
+						} else {
+							t.unsupported(x, "gob Encode / Decode result assigned to something other than an error variable")
+						}
+						reg := func(name, typ string) {
+							for _, e := range *t.externs {
+								if e.name == name {
+									return
+								}
+							}
+							*t.externs = append(*t.externs, extern{name, typ})
+						}
+						mark := len(t.guards)
+						if el.kind == "gencoder" {
+							v := t.boxVal(c.Args[0])
+							reg("ext_gob_Encode", "value -> (res str)")
+							w := el.sink.name
+							return t.wrap(mark, "match (ext_gob_Encode "+v+") with Panic => Crash | rr_ => let '("+w+", "+en+") := match rr_ with Ok w_ => (app "+w+" w_, None) | Err e_ => ("+w+", Some e_) | Panic => ("+w+", None) end in\n  "+next()+" end")
+						}
+						u, isAddr := c.Args[0].(*ast.UnaryExpr)
+						var ml *lvar
+						if isAddr && u.Op == token.AND {
+							ml = t.lvarOf(u.X)
+						}
+						if ml == nil || ml.kind != "vmap" || !ml.ownedMap() {
+							t.unsupported(x, "gob Decode into something other than &m with m a map made by this function")
+						}
+						reg("ext_gob_Decode", "str -> entries -> (res entries)")
+						return t.wrap(mark, "match (ext_gob_Decode "+el.fields["src"].name+" "+ml.name+") with Panic => Crash | rr_ => let '("+ml.name+", "+en+") := match rr_ with Ok v_ => (v_, None) | Err e_ => ("+ml.name+", Some e_) | Panic => ("+ml.name+", None) end in\n  "+next()+" end")
+					}
+				}
+			}
+		}
 		// enc := json.NewEncoder(&buf) on a writer local: the encoder is the writer it appends to and its escapeHTML flag (true
 		// until SetEscapeHTML); what Encode writes is the environment function ext_json_Encode
 		if define {
@@ -5059,7 +5139,7 @@ func constTable(p *pkgInfo, vs *ast.ValueSpec, i int) (string, bool) {
 
 // the functions translated into Pure_gen.v ("Recv.Method" for methods)
 var pureFuncs = []string{"cast", "escapeChars", "parsePath", "getSubKeyMap", "hasSubKeys", "Map.PathForKeyShortest", "valuesForKeyPath", "hasKey", "hasKeyPath", "getLeafNodes",
-	"Map.ValuesForKey", "Map.oldValuesForPath", "Map.ValuesForPath", "Map.LeafNodes", "getJson", "NewMapJsonReader", "NewMapJsonReaderRaw", "Map.Exists", "Map.ValueForPath", "Map.ValueForKey", "Map.LeafPaths", "Map.LeafValues", "valuesForArray", "Map.PathsForKey", "byteReader.ReadByte", "teeReader.ReadByte", "Maps.JsonString", "Maps.JsonStringIndent", "Maps.XmlString", "Maps.XmlStringIndent", "BeautifyXml", "Map.Copy", "Map.Json", "Map.Root", "NewMapXml", "NewMapXmlSeq", "lastKey", "xmlToMapParser", "xmlSeqToMapParser", "Map.JsonWriter", "Map.JsonWriterRaw", "Map.JsonIndentWriter", "Map.JsonIndentWriterRaw", "Map.XmlWriter", "Map.XmlIndentWriter", "MapSeq.XmlWriter", "MapSeq.XmlIndentWriter", "mapToXmlSeqIndent", "pretty.Indent", "pretty.Outdent", "elemListSeq.Less", "marshalMapToXmlIndent", "attrList.Less", "elemList.Less", "NewMapJson", "updateValueForKey", "updateValue", "updateValuesForKeyPath", "Map.UpdateValuesForPath", "prevValueByPath", "remove", "renameKey", "Map.Remove", "Map.RenameKey", "parentPath", "Map.SetValueForPath", "Map.Xml", "Map.XmlIndent", "MapSeq.Xml", "MapSeq.XmlIndent", "AnyXml", "AnyXmlIndent", "marshalJSON", "Map.JsonIndent", "Map.NewMap", "addNewVal", "copyMapShallow"}
+	"Map.ValuesForKey", "Map.oldValuesForPath", "Map.ValuesForPath", "Map.LeafNodes", "getJson", "NewMapJsonReader", "NewMapJsonReaderRaw", "Map.Exists", "Map.ValueForPath", "Map.ValueForKey", "Map.LeafPaths", "Map.LeafValues", "valuesForArray", "Map.PathsForKey", "byteReader.ReadByte", "teeReader.ReadByte", "Maps.JsonString", "Maps.JsonStringIndent", "Maps.XmlString", "Maps.XmlStringIndent", "BeautifyXml", "Map.Copy", "Map.Json", "Map.Root", "NewMapXml", "NewMapXmlSeq", "lastKey", "xmlToMapParser", "xmlSeqToMapParser", "Map.JsonWriter", "Map.JsonWriterRaw", "Map.JsonIndentWriter", "Map.JsonIndentWriterRaw", "Map.XmlWriter", "Map.XmlIndentWriter", "MapSeq.XmlWriter", "MapSeq.XmlIndentWriter", "mapToXmlSeqIndent", "pretty.Indent", "pretty.Outdent", "elemListSeq.Less", "marshalMapToXmlIndent", "attrList.Less", "elemList.Less", "NewMapJson", "updateValueForKey", "updateValue", "updateValuesForKeyPath", "Map.UpdateValuesForPath", "prevValueByPath", "remove", "renameKey", "Map.Remove", "Map.RenameKey", "parentPath", "Map.SetValueForPath", "Map.Xml", "Map.XmlIndent", "MapSeq.Xml", "MapSeq.XmlIndent", "AnyXml", "AnyXmlIndent", "marshalJSON", "Map.JsonIndent", "Map.NewMap", "addNewVal", "copyMapShallow", "NewMapGob", "Map.Gob"}
 
 // joinMode: functions translated in join mode (see branching): the statements after an if / switch are translated
 // once instead of into every branch.  The continuation-passing translation of the other functions is kept as it is
